@@ -1,1 +1,362 @@
-// harnesses for module find (included into /repo under cfg(kani))
+// C02/C03/C01/C18: findutils' side of the walk (process_dir), its WalkDir configuration, and the operand scan.
+use super::*;
+use crate::find::matchers::verif_kani::common::*;
+use crate::find::matchers::verif_kani::{PruneProbe, VerifTrue};
+use crate::find::matchers::{Matcher, MatcherIO, WalkEntry, WalkError};
+
+// ---------------------------------------------------------------------------------------------
+// walk_config: what process_dir asks walkdir for
+// ---------------------------------------------------------------------------------------------
+struct Nop;
+impl Matcher for Nop { fn matches(&self, _: &WalkEntry, _: &mut MatcherIO) -> bool { true } }
+static mut NEXT_CALLS: usize = 0;
+fn next_none(_it: &mut walkdir::IntoIter) -> Option<walkdir::Result<walkdir::DirEntry>> { unsafe { NEXT_CALLS += 1; } None }
+static mut R_CF: Option<bool> = None;
+static mut R_SFS: Option<bool> = None;
+static mut R_FL: Option<bool> = None;
+static mut R_FRL: Option<bool> = None;
+static mut R_SORT: bool = false;
+// model of walkdir 2.5's builder state for the depth range, including its (undocumented) clamping:
+//   min_depth(d): min = d; if min > max { min = max }      max_depth(d): max = d; if max < min { max = min }
+static mut W_MIN: usize = 0;
+static mut W_MAX: usize = usize::MAX;
+fn cf(w: WalkDir, v: bool) -> WalkDir { unsafe { R_CF = Some(v); } w }
+fn maxd(w: WalkDir, v: usize) -> WalkDir { unsafe { W_MAX = v; if W_MAX < W_MIN { W_MAX = W_MIN; } } w }
+fn mind(w: WalkDir, v: usize) -> WalkDir { unsafe { W_MIN = v; if W_MIN > W_MAX { W_MIN = W_MAX; } } w }
+fn sfs(w: WalkDir, v: bool) -> WalkDir { unsafe { R_SFS = Some(v); } w }
+fn fl(w: WalkDir, v: bool) -> WalkDir { unsafe { R_FL = Some(v); } w }
+fn frl(w: WalkDir, v: bool) -> WalkDir { unsafe { R_FRL = Some(v); } w }
+fn sortby<F>(w: WalkDir, _cmp: F) -> WalkDir
+where F: FnMut(&walkdir::DirEntry, &walkdir::DirEntry) -> std::cmp::Ordering + Send + Sync + 'static {
+    unsafe { R_SORT = true; }
+    w
+}
+
+// @harness props=C02,C03 tier=quick cost=20 flags=nomem
+// @exec process_dir (builder calls, loop entry, epilogue), MatcherIO::new
+// @sym every Config field that reaches walkdir: depth_first, min_depth, max_depth (full usize), same_file_system, sorted_output, follow P/H/L
+// @bounds zero entries yielded (the iterator is cut: next() -> None); WalkDir builder methods replaced by recorders
+// @assume walkdir 2.5 honours the recorded options; its min_depth/max_depth clamp each other as in its source (model quoted in the harness)
+// @witness depth_first:bool min_depth:usize max_depth:usize sfs:bool sorted:bool follow:u8
+// @replay walk_config
+/// process_dir requests: contents_first <=> -depth, the given depth range, follow_links <=> -L, follow_root_links <=> -H or -L,
+/// same_file_system <=> -xdev, a sorter <=> -sorted; and when mindepth > maxdepth nothing is walked at all.
+#[kani::proof]
+#[kani::unwind(3)]
+#[kani::stub(alloc::fmt::format, fmt_stub)]
+#[kani::stub(alloc::raw_vec::handle_error, he_stub)]
+#[kani::stub(std::alloc::handle_alloc_error, hae_stub)]
+#[kani::stub(<std::io::Stderr as std::io::Write>::write_fmt, wf_stub)]
+#[kani::stub(<walkdir::IntoIter as std::iter::Iterator>::next, next_none)]
+#[kani::stub(walkdir::WalkDir::contents_first, cf)]
+#[kani::stub(walkdir::WalkDir::max_depth, maxd)]
+#[kani::stub(walkdir::WalkDir::min_depth, mind)]
+#[kani::stub(walkdir::WalkDir::same_file_system, sfs)]
+#[kani::stub(walkdir::WalkDir::follow_links, fl)]
+#[kani::stub(walkdir::WalkDir::follow_root_links, frl)]
+#[kani::stub(walkdir::WalkDir::sort_by, sortby)]
+fn c02_walk_config() {
+    let mut config = Config::default();
+    config.depth_first = kani::any(); config.min_depth = kani::any(); config.max_depth = kani::any();
+    config.same_file_system = kani::any(); config.sorted_output = kani::any();
+    config.follow = any_follow();
+    unsafe { NEXT_CALLS = 0; W_MIN = 0; W_MAX = usize::MAX; R_SORT = false; }
+    let deps = Deps::new();
+    let mut quit = false;
+    let ret = process_dir("r", &config, &deps, &Nop, &mut quit);
+    assert!(ret == 0 && !quit);
+    unsafe {
+        if config.min_depth <= config.max_depth {
+            assert!(NEXT_CALLS == 1);
+            assert!(W_MIN == config.min_depth && W_MAX == config.max_depth);
+            assert!(R_CF == Some(config.depth_first));
+            assert!(R_SFS == Some(config.same_file_system));
+            assert!(R_FL == Some(config.follow == Follow::Always));
+            assert!(R_FRL == Some(config.follow != Follow::Never));
+            assert!(R_SORT == config.sorted_output);
+        } else {
+            // nothing lies in an empty depth range: either the walk is not started, or the range requested is empty
+            assert!(NEXT_CALLS == 0 || W_MIN > W_MAX, "mindepth > maxdepth must visit nothing");
+        }
+    }
+    kani::cover!(config.min_depth > config.max_depth);
+    kani::cover!(config.min_depth == config.max_depth && config.sorted_output);
+    kani::cover!(config.follow == Follow::Roots && config.depth_first);
+}
+#[kani::proof]
+#[kani::unwind(3)]
+#[kani::stub(alloc::fmt::format, fmt_stub)]
+#[kani::stub(alloc::raw_vec::handle_error, he_stub)]
+#[kani::stub(std::alloc::handle_alloc_error, hae_stub)]
+#[kani::stub(<std::io::Stderr as std::io::Write>::write_fmt, wf_stub)]
+#[kani::stub(<walkdir::IntoIter as std::iter::Iterator>::next, next_none)]
+#[kani::stub(walkdir::WalkDir::follow_links, fl)]
+#[kani::stub(walkdir::WalkDir::follow_root_links, frl)]
+fn c02_walk_config_canary() {
+    let mut config = Config::default();
+    config.follow = any_follow();
+    let deps = Deps::new();
+    let mut quit = false;
+    process_dir("r", &config, &deps, &Nop, &mut quit);
+    unsafe { assert!(R_FL == R_FRL); } // -H behaves like -L: must FAIL
+}
+
+// ---------------------------------------------------------------------------------------------
+// walk_loop: the real process_dir loop over a scripted walkdir iterator
+// ---------------------------------------------------------------------------------------------
+const MAXSTEPS: usize = 3;
+const PATHS: [&str; MAXSTEPS] = ["r/a", "r/b", "r/c"];
+static mut N: usize = 0;
+static mut POS: usize = 0;
+static mut IS_ERR: [bool; MAXSTEPS] = [false; MAXSTEPS];
+static mut IS_DIR: [bool; MAXSTEPS] = [false; MAXSTEPS];
+static mut SKIP_AFTER: [bool; MAXSTEPS] = [false; MAXSTEPS];
+static mut NEVAL: [u8; MAXSTEPS] = [0; MAXSTEPS];
+static mut ORDER: [u8; MAXSTEPS] = [0; MAXSTEPS];
+static mut NMATCH: usize = 0;
+static mut NFINISHED: usize = 0;
+static mut DO_PRUNE: [bool; MAXSTEPS] = [false; MAXSTEPS];
+static mut DO_QUIT: [bool; MAXSTEPS] = [false; MAXSTEPS];
+static mut SET_CODE: [bool; MAXSTEPS] = [false; MAXSTEPS];
+
+fn no_stat<P: AsRef<std::path::Path>>(_p: P) -> std::io::Result<std::fs::Metadata> { kani::assume(false); unreachable!() }
+fn de_meta_cut(_d: &walkdir::DirEntry) -> walkdir::Result<std::fs::Metadata> { kani::assume(false); unreachable!() }
+fn de_path_cut(_d: &walkdir::DirEntry) -> &std::path::Path { kani::assume(false); unreachable!() }
+fn de_ft_cut(_d: &walkdir::DirEntry) -> std::fs::FileType { kani::assume(false); unreachable!() }
+fn de_depth_cut(_d: &walkdir::DirEntry) -> usize { kani::assume(false); unreachable!() }
+fn de_sym_cut(_d: &walkdir::DirEntry) -> bool { kani::assume(false); unreachable!() }
+fn parent_cut(_p: &std::path::Path) -> Option<&std::path::Path> { None }
+#[allow(dead_code)]
+struct MirrorDirEntry { path: PathBuf, ty: std::fs::FileType, follow_link: bool, depth: usize, ino: u64 }
+fn fabricate_dirent() -> walkdir::DirEntry {
+    let (m, _st) = any_metadata();
+    let mirror = MirrorDirEntry { path: PathBuf::new(), ty: m.file_type(), follow_link: false, depth: 1, ino: 0 };
+    unsafe { std::mem::transmute::<MirrorDirEntry, walkdir::DirEntry>(mirror) }
+}
+fn next_script(_it: &mut walkdir::IntoIter) -> Option<walkdir::Result<walkdir::DirEntry>> {
+    unsafe {
+        if POS >= N { return None; }
+        POS += 1;
+        Some(Ok(fabricate_dirent()))
+    }
+}
+fn skip_rec(_it: &mut walkdir::IntoIter) { unsafe { SKIP_AFTER[POS - 1] = true; } }
+fn from_walkdir_script(result: walkdir::Result<walkdir::DirEntry>, follow: Follow) -> Result<WalkEntry, WalkError> {
+    std::mem::forget(result);
+    unsafe {
+        let i = POS - 1;
+        if IS_ERR[i] { return Err(walk_error(13)); }
+        let (m, st) = any_metadata();
+        kani::assume(is_type(st.st_mode, libc::S_IFDIR) == IS_DIR[i]);
+        Ok(entry_at(PATHS[i], m, 1, follow))
+    }
+}
+/// Scripted expression: per entry, optionally -prune (the real PruneMatcher), -quit, or a failing action.
+struct Scripted { prune: PruneProbe }
+impl Matcher for Scripted {
+    fn matches(&self, e: &WalkEntry, io: &mut MatcherIO) -> bool {
+        unsafe {
+            let i = POS - 1;
+            NEVAL[i] += 1;
+            if NMATCH < MAXSTEPS { ORDER[NMATCH] = i as u8; }
+            NMATCH += 1;
+            if DO_PRUNE[i] { self.prune.run(e, io); }
+            if DO_QUIT[i] { io.quit(); }
+            if SET_CODE[i] { io.set_exit_code(1); }
+        }
+        true
+    }
+    fn finished(&self, _io: &mut MatcherIO) { unsafe { NFINISHED += 1; } }
+}
+
+fn run_walk_loop(steps: usize, canary: bool) {
+    unsafe {
+        N = kani::any(); kani::assume(N <= steps);
+        POS = 0; NMATCH = 0; NFINISHED = 0;
+        let mut i = 0;
+        while i < MAXSTEPS { IS_ERR[i] = kani::any(); IS_DIR[i] = kani::any(); DO_PRUNE[i] = kani::any(); DO_QUIT[i] = kani::any(); SET_CODE[i] = kani::any(); SKIP_AFTER[i] = false; NEVAL[i] = 0; i += 1; }
+    }
+    let mut config = Config::default();
+    config.depth_first = kani::any();
+    let deps = Deps::new();
+    let m = Scripted { prune: PruneProbe::new() };
+    let mut quit = false;
+    let ret = process_dir("r", &config, &deps, &m, &mut quit);
+    unsafe {
+        if canary {
+            // wrong on purpose: "an unreadable entry stops the walk"
+            let mut i = 0; let mut seen_err = false;
+            while i < MAXSTEPS { if i < N { if seen_err && !DO_QUIT[0] && !DO_QUIT[1] { assert!(NEVAL[i] == 0); } if IS_ERR[i] { seen_err = true; } } i += 1; }
+            return;
+        }
+        let mut seen_quit = false; let mut failed = false; let mut expect = 0usize;
+        let mut i = 0;
+        while i < MAXSTEPS {
+            if i < N {
+                if seen_quit { assert!(NEVAL[i] == 0); }                        // C01: nothing after -quit
+                else if IS_ERR[i] { assert!(NEVAL[i] == 0); failed = true; }    // C02: diagnostic, non-zero status, walk goes on
+                else {
+                    assert!(NEVAL[i] == 1);                                     // C02: exactly once
+                    assert!(ORDER[expect] == i as u8);                          // in the order yielded
+                    expect += 1;
+                    if SET_CODE[i] { failed = true; }
+                    let pruned = DO_PRUNE[i] && IS_DIR[i];
+                    if DO_QUIT[i] { seen_quit = true; assert!(!SKIP_AFTER[i]); }
+                    else {
+                        // C03: -prune cuts the subtree in pre-order and changes nothing under -depth
+                        assert!(SKIP_AFTER[i] == (pruned && !config.depth_first));
+                    }
+                }
+            } else { assert!(NEVAL[i] == 0); }
+            i += 1;
+        }
+        assert!(NMATCH == expect);
+        assert!(quit == seen_quit);
+        assert!(NFINISHED == 1);            // pending -exec ... + batches are flushed exactly once, also after -quit
+        assert!((ret != 0) == failed);
+        kani::cover!(N == steps && seen_quit);
+        kani::cover!(N == steps && failed && expect >= 1);
+        kani::cover!(N >= 2 && SKIP_AFTER[0] && NEVAL[1] == 1);
+        kani::cover!(N >= 2 && DO_PRUNE[0] && IS_DIR[0] && config.depth_first);
+    }
+}
+
+// @harness props=C01,C02,C03 tier=quick cost=200 flags=nomem
+// @exec process_dir (the whole loop and epilogue), MatcherIO::{new,exit_code,should_quit,should_skip_current_dir}, PruneMatcher::matches
+// @sym script of 0..2 steps; per step: walkdir error or entry (directory or not, symbolic record), expression prunes / quits / sets a failing status; -depth on/off
+// @bounds at most 2 yielded entries (thorough: 3); walkdir's iterator scripted; WalkEntry::from_walkdir scripted; Path::parent cut to None (disables only the finished_dir bookkeeping)
+// @assume walkdir's documented contract for skip_current_dir; fabricated walkdir::DirEntry values are never inspected
+// @replay walk_loop
+/// Every yielded entry is evaluated exactly once, in order; an error step gives a non-zero status and the walk continues;
+/// after -quit nothing further is evaluated; finished() runs once; skip_current_dir is requested iff -prune fired on a directory and not -depth.
+#[kani::proof]
+#[kani::unwind(5)]
+#[kani::stub(<std::io::Stderr as std::io::Write>::write_fmt, wf_stub)]
+#[kani::stub(<walkdir::IntoIter as std::iter::Iterator>::next, next_script)]
+#[kani::stub(walkdir::IntoIter::skip_current_dir, skip_rec)]
+#[kani::stub(WalkEntry::from_walkdir, from_walkdir_script)]
+#[kani::stub(alloc::raw_vec::handle_error, he_stub)]
+#[kani::stub(std::alloc::handle_alloc_error, hae_stub)]
+#[kani::stub(alloc::fmt::format, fmt_stub)]
+#[kani::stub(std::fs::metadata, no_stat)]
+#[kani::stub(std::fs::symlink_metadata, no_stat)]
+#[kani::stub(std::path::Path::parent, parent_cut)]
+#[kani::stub(walkdir::DirEntry::metadata, de_meta_cut)]
+#[kani::stub(walkdir::DirEntry::path, de_path_cut)]
+#[kani::stub(walkdir::DirEntry::file_type, de_ft_cut)]
+#[kani::stub(walkdir::DirEntry::depth, de_depth_cut)]
+#[kani::stub(walkdir::DirEntry::path_is_symlink, de_sym_cut)]
+fn c03_walk_loop2() { run_walk_loop(2, false); }
+#[kani::proof]
+#[kani::unwind(5)]
+#[kani::stub(<std::io::Stderr as std::io::Write>::write_fmt, wf_stub)]
+#[kani::stub(<walkdir::IntoIter as std::iter::Iterator>::next, next_script)]
+#[kani::stub(walkdir::IntoIter::skip_current_dir, skip_rec)]
+#[kani::stub(WalkEntry::from_walkdir, from_walkdir_script)]
+#[kani::stub(alloc::raw_vec::handle_error, he_stub)]
+#[kani::stub(std::alloc::handle_alloc_error, hae_stub)]
+#[kani::stub(alloc::fmt::format, fmt_stub)]
+#[kani::stub(std::fs::metadata, no_stat)]
+#[kani::stub(std::fs::symlink_metadata, no_stat)]
+#[kani::stub(std::path::Path::parent, parent_cut)]
+#[kani::stub(walkdir::DirEntry::metadata, de_meta_cut)]
+#[kani::stub(walkdir::DirEntry::path, de_path_cut)]
+#[kani::stub(walkdir::DirEntry::file_type, de_ft_cut)]
+#[kani::stub(walkdir::DirEntry::depth, de_depth_cut)]
+#[kani::stub(walkdir::DirEntry::path_is_symlink, de_sym_cut)]
+fn c03_walk_loop2_canary() { run_walk_loop(2, true); }
+
+// @harness props=C01,C02,C03 tier=thorough cost=900 flags=nomem
+// @exec as c03_walk_loop2
+// @sym script of 0..3 steps
+// @bounds at most 3 yielded entries
+#[kani::proof]
+#[kani::unwind(6)]
+#[kani::stub(<std::io::Stderr as std::io::Write>::write_fmt, wf_stub)]
+#[kani::stub(<walkdir::IntoIter as std::iter::Iterator>::next, next_script)]
+#[kani::stub(walkdir::IntoIter::skip_current_dir, skip_rec)]
+#[kani::stub(WalkEntry::from_walkdir, from_walkdir_script)]
+#[kani::stub(alloc::raw_vec::handle_error, he_stub)]
+#[kani::stub(std::alloc::handle_alloc_error, hae_stub)]
+#[kani::stub(alloc::fmt::format, fmt_stub)]
+#[kani::stub(std::fs::metadata, no_stat)]
+#[kani::stub(std::fs::symlink_metadata, no_stat)]
+#[kani::stub(std::path::Path::parent, parent_cut)]
+#[kani::stub(walkdir::DirEntry::metadata, de_meta_cut)]
+#[kani::stub(walkdir::DirEntry::path, de_path_cut)]
+#[kani::stub(walkdir::DirEntry::file_type, de_ft_cut)]
+#[kani::stub(walkdir::DirEntry::depth, de_depth_cut)]
+#[kani::stub(walkdir::DirEntry::path_is_symlink, de_sym_cut)]
+fn c03_walk_loop3() { run_walk_loop(3, false); }
+
+// ---------------------------------------------------------------------------------------------
+// C18: the operand scan of parse_args
+// ---------------------------------------------------------------------------------------------
+static mut EXPR_LEN: usize = 99;
+fn btlm_stub(args: &[&str], _config: &mut Config) -> Result<Box<dyn matchers::Matcher>, Box<dyn Error>> {
+    unsafe { EXPR_LEN = args.len(); }
+    Ok(Box::new(VerifTrue))
+}
+// vocabulary: 0 ".", 1 "a", 2 "-", 3 "--", 4 "-H", 5 "-L", 6 "-O2", 7 "!", 8 "-print", 9 "-P", 10 "(", 11 "./a/"
+const VOC: [&str; 12] = [".", "a", "-", "--", "-H", "-L", "-O2", "!", "-print", "-P", "(", "./a/"];
+fn is_flag(t: u8) -> bool { t == 4 || t == 5 || t == 6 || t == 9 }
+fn is_path(t: u8) -> bool { t == 0 || t == 1 || t == 2 || t == 11 }
+fn follow_of(t: u8, prev: u8) -> u8 { if t == 4 { 1 } else if t == 5 { 2 } else if t == 9 { 0 } else { prev } }
+fn follow_code(f: Follow) -> u8 { match f { Follow::Never => 0, Follow::Roots => 1, Follow::Always => 2 } }
+
+// @harness props=C18 tier=quick cost=120 flags=nomem
+// @exec parse_args (global options scan, operand scan, default "."), Config::default
+// @sym exactly two tokens, each from a 12-word vocabulary (paths, "-", "--", -H/-L/-P/-O2, "!", "(", an expression word)
+// @bounds 2 tokens; the expression parser (build_top_level_matcher) is cut and only records how many tokens it was given
+// @replay parse_args_operands
+/// Leading -H/-L/-P/-O* set the follow mode and are consumed, "--" ends them; operands run up to the first token that starts an
+/// expression; they are kept in order and spelled as given; none => "."; the rest goes to the expression parser.
+#[kani::proof]
+#[kani::unwind(4)]
+#[kani::stub(alloc::fmt::format, fmt_stub)]
+#[kani::stub(alloc::raw_vec::handle_error, he_stub)]
+#[kani::stub(std::alloc::handle_alloc_error, hae_stub)]
+#[kani::stub(matchers::build_top_level_matcher, btlm_stub)]
+fn c18_parse_args_two_tokens() {
+    let t0: u8 = kani::any(); let t1: u8 = kani::any();
+    kani::assume((t0 as usize) < VOC.len() && (t1 as usize) < VOC.len());
+    let args: [&str; 2] = [VOC[t0 as usize], VOC[t1 as usize]];
+    let (k, follow): (usize, u8) =
+        if t0 == 3 { (1, 0) }
+        else if is_flag(t0) {
+            let f0 = follow_of(t0, 0);
+            if t1 == 3 { (2, f0) } else if is_flag(t1) { (2, follow_of(t1, f0)) } else { (1, f0) }
+        } else { (0, 0) };
+    let np: usize = if k == 0 { if is_path(t0) { if is_path(t1) { 2 } else { 1 } } else { 0 } }
+                    else if k == 1 { if is_path(t1) { 1 } else { 0 } } else { 0 };
+    let r = parse_args(&args);
+    match r {
+        Ok(p) => {
+            assert!(follow_code(p.config.follow) == follow);
+            if np == 0 { assert!(p.paths.len() == 1 && p.paths[0] == "."); }
+            else if np == 1 { assert!(p.paths.len() == 1 && p.paths[0] == args[k]); }
+            else { assert!(p.paths.len() == 2 && p.paths[0] == args[0] && p.paths[1] == args[1]); }
+            unsafe { assert!(EXPR_LEN == 2 - k - np); }
+            kani::cover!(np == 2 && t0 == 11);
+            kani::cover!(k == 2 && follow == 1);
+            kani::cover!(k == 1 && np == 1 && t0 == 3 && t1 == 2);
+            std::mem::forget(p);
+        }
+        Err(e) => { std::mem::forget(e); assert!(false); }
+    }
+}
+#[kani::proof]
+#[kani::unwind(4)]
+#[kani::stub(alloc::fmt::format, fmt_stub)]
+#[kani::stub(alloc::raw_vec::handle_error, he_stub)]
+#[kani::stub(std::alloc::handle_alloc_error, hae_stub)]
+#[kani::stub(matchers::build_top_level_matcher, btlm_stub)]
+fn c18_parse_args_two_tokens_canary() {
+    let t0: u8 = kani::any();
+    kani::assume((t0 as usize) < VOC.len());
+    let args: [&str; 2] = [VOC[t0 as usize], "a"];
+    match parse_args(&args) {
+        Ok(p) => { assert!(p.paths.len() == 2); std::mem::forget(p); } // every first token is an operand: must FAIL
+        Err(e) => { std::mem::forget(e); }
+    }
+}
